@@ -325,3 +325,43 @@ func b2i(b bool) int {
 //@   requires !c.loweringState.unreachable && c.needListener
 //@   ensures[after-listener-before-the-return] afterCalls() == old(afterCalls()) + 1
 //@   nosafety keep-pre
+
+// ---- C04: compiled code reaches a global through the module context exactly as the module engine laid it
+// out (internal/engine/wazevo verif_contracts: an imported global's slot holds the pointer to the
+// EXPORTER's cell): an imported global is accessed at offset 0 of the pointer loaded from its slot, a local
+// global in place in the module context.
+//@ prop C04
+//@ iface (b ssa.Builder) DefineVariableInCurrentBB(variable ssa.Variable, value ssa.Value)
+//@   modifies nothing
+//@ iface (b ssa.Builder) FindValueInLinearPath(variable ssa.Variable) ssa.Value
+//@   modifies nothing
+
+//@ func (c *Compiler) setWasmGlobalValue(index wasm.Index, v ssa.Value)
+//@   requires c.ssaBuilder != nil && c.m != nil && int(index) < len(c.globalVariables)
+//@   ensures[imported-global-stored-through-the-exporters-pointer] index < c.m.ImportGlobalCount ==> gg("lastOp") == int(ssa.OpcodeStore) && gg("lastV") == int(v) && uint32(gg("lastU1")) == 0 && ssa.IsLoaded(ssa.Value(gg("lastV2"))) && ssa.LoadedFrom(ssa.Value(gg("lastV2"))) == c.moduleCtxPtrValue && ssa.LoadedAt(ssa.Value(gg("lastV2"))) == uint64(uint32(c.offset.GlobalInstanceOffset(index)))
+//@   ensures[local-global-stored-in-place] index >= c.m.ImportGlobalCount ==> gg("lastOp") == int(ssa.OpcodeStore) && gg("lastV") == int(v) && gg("lastV2") == int(c.moduleCtxPtrValue) && uint32(gg("lastU1")) == uint32(c.offset.GlobalInstanceOffset(index))
+//@   records gsIndex = int(index)
+//@   records gsVal = int(v)
+//@   modifies ghost("*")
+//@   nosafety keep-pre
+
+//@ func (c *Compiler) getWasmGlobalValue(index wasm.Index, forceLoad bool) ssa.Value
+//@   requires c.ssaBuilder != nil && c.m != nil && int(index) < len(c.globalVariables) && int(index) < len(c.globalVariablesTypes)
+//@   ensures[imported-global-loaded-through-the-exporters-pointer] forceLoad && index < c.m.ImportGlobalCount ==> ssa.IsLoaded(r0) && ssa.LoadedAt(r0) == 0 && ssa.IsLoaded(ssa.LoadedFrom(r0)) && ssa.LoadedFrom(ssa.LoadedFrom(r0)) == c.moduleCtxPtrValue && ssa.LoadedAt(ssa.LoadedFrom(r0)) == uint64(uint32(c.offset.GlobalInstanceOffset(index)))
+//@   ensures[local-global-loaded-in-place] forceLoad && index >= c.m.ImportGlobalCount ==> ssa.IsLoaded(r0) && ssa.LoadedFrom(r0) == c.moduleCtxPtrValue && ssa.LoadedAt(r0) == uint64(uint32(c.offset.GlobalInstanceOffset(index)))
+//@   records ggIndex = int(index)
+//@   records ggRet = int(r0)
+//@   modifies ghost("*")
+//@   nosafety keep-pre
+
+//@ case global.set (c *Compiler) lowerCurrentOpcode()
+//@   requires c.ssaBuilder != nil && c.m != nil && c.loweringState.pc >= 0 && c.loweringState.pc < 1<<39 && c.loweringState.pc+1 < len(c.wasmFunctionBody) && c.wasmFunctionBody[c.loweringState.pc] == wasm.OpcodeGlobalSet && c.wasmFunctionBody[c.loweringState.pc+1] < 0x80
+//@   requires !c.loweringState.unreachable && len(c.loweringState.values) >= 1 && int(c.wasmFunctionBody[c.loweringState.pc+1]) < len(c.globalVariables)
+//@   ensures[the-popped-value-into-the-global-of-the-immediate] gg("gsIndex") == int(old(c.wasmFunctionBody[c.loweringState.pc+1])) && gg("gsVal") == int(old(stackAt(c, 0))) && len(c.loweringState.values) == old(len(c.loweringState.values))-1
+//@   nosafety keep-pre
+
+//@ case global.get (c *Compiler) lowerCurrentOpcode()
+//@   requires c.ssaBuilder != nil && c.m != nil && c.loweringState.pc >= 0 && c.loweringState.pc < 1<<39 && c.loweringState.pc+1 < len(c.wasmFunctionBody) && c.wasmFunctionBody[c.loweringState.pc] == wasm.OpcodeGlobalGet && c.wasmFunctionBody[c.loweringState.pc+1] < 0x80
+//@   requires !c.loweringState.unreachable && len(c.loweringState.values) < 1<<40 && int(c.wasmFunctionBody[c.loweringState.pc+1]) < len(c.globalVariables) && int(c.wasmFunctionBody[c.loweringState.pc+1]) < len(c.globalVariablesTypes)
+//@   ensures[the-global-of-the-immediate-is-pushed] gg("ggIndex") == int(old(c.wasmFunctionBody[c.loweringState.pc+1])) && int(stackAt(c, 0)) == gg("ggRet") && len(c.loweringState.values) == old(len(c.loweringState.values))+1
+//@   nosafety keep-pre
